@@ -23,6 +23,7 @@ type c10ex struct {
 	fwd  bool
 	mode string // f: forward plain, g: forward grouped (VT_G1), b: backward plain, h: backward grouped (CC_G1)
 	ids  map[string]bool
+	sent map[string]string // "to:"/"cancel:" + transfer id -> tx id of the robot's last such request
 }
 
 func (e *c10ex) u(name string) *simpeer.User {
@@ -79,6 +80,7 @@ func (e *c10ex) Exec(op string) string {
 		e.b = wd.AddChannel("CC", world.Options{})
 		e.b.L.State[rawKey(e.b, "2d", "VT")] = big.NewInt(1000000).Bytes()
 		e.ids = map[string]bool{}
+		e.sent = map[string]string{}
 		return "ok"
 	}
 	if e.a == nil {
@@ -128,7 +130,7 @@ func (e *c10ex) Exec(op string) string {
 		}
 		e.ids[dec(w[1])] = true
 		data, _ := json.Marshal(&fpb.CCTransfer{Id: dec(w[1]), From: "VT", To: "CC", Token: e.token(), User: e.u(w[2]).AddrRaw, Amount: amt.Bytes(), ForwardDirection: e.fwd})
-		return okErr(e.b.RobotBatched("createCCTransferTo", string(data)))
+		return okErr(e.robotBatched(e.b, "to:"+w[1], "createCCTransferTo", string(data)))
 	case "commit":
 		return okErr(e.a.RobotNB("commitCCTransferFrom", w[1]))
 	case "delto":
@@ -136,7 +138,26 @@ func (e *c10ex) Exec(op string) string {
 	case "delfrom":
 		return okErr(e.a.RobotNB("deleteCCTransferFrom", w[1]))
 	case "cancel":
-		return okErr(e.a.RobotBatched("cancelCCTransferFrom", w[1]))
+		return okErr(e.robotBatched(e.a, "cancel:"+w[1], "cancelCCTransferFrom", w[1]))
+	case "reto", "recancel":
+		// the robot, restarted after its batch was committed, sends the same batch again: the request
+		// it names was consumed by the first execution
+		if len(w) != 2 {
+			return "bad-op"
+		}
+		c, k := e.b, "to:"+w[1]
+		if w[0] == "recancel" {
+			c, k = e.a, "cancel:"+w[1]
+		}
+		id, ok := e.sent[k]
+		if !ok {
+			return "err"
+		}
+		b := c.ExecIDs(id)
+		if b.Resp == nil || len(b.Resp.TxResponses) != 1 || b.Resp.TxResponses[0].GetError() != nil {
+			return "err"
+		}
+		return "ok"
 	case "rebin":
 		// the records of this id as an early version of the library stored them: binary protobuf
 		// instead of JSON (same content); every later step must treat them alike
@@ -303,6 +324,24 @@ func bigOf(s string) *big.Int {
 	return n
 }
 
+// robotBatched: like Chan.RobotBatched, remembering the request's tx id under k
+func (e *c10ex) robotBatched(c *world.Chan, k, fn string, args ...string) string {
+	id := simpeer.NewTxID()
+	r := c.Invoke(theWorld().Robot.Creator, id, fn, args...)
+	if !r.OK() {
+		return "submit: " + r.Resp.Message
+	}
+	e.sent[k] = id
+	b := c.ExecIDs(id)
+	if b.Resp == nil {
+		return "batch: " + b.Res.Resp.Message
+	}
+	if er := b.Resp.TxResponses[0].GetError(); er != nil {
+		return er.GetError()
+	}
+	return ""
+}
+
 func genC10(c *Cfg, emit func([]string)) {
 	users := []string{"u0", "u1"}
 	// (a) state-space walk: every sequence of steps up to a depth over one id (exhaustive), all
@@ -359,6 +398,31 @@ func genC10(c *Cfg, emit func([]string)) {
 			}
 		}
 	}
+	// (a'''') the robot re-sending an executed batch (create-to, cancel) at every later stage - also
+	// after the record that would refuse the repetition is gone, and after the id was legally reused
+	for _, dir := range []string{"f", "b", "g", "h"} {
+		full := []string{"from t1 u0 40", "to t1 u0 40", "commit t1", "delto t1", "delfrom t1"}
+		for k := 2; k <= len(full); k++ {
+			h := []string{"reset " + dir, "fund u0 100"}
+			for _, p := range full[:k] {
+				h = append(h, p, "dump")
+			}
+			h = append(h, "reto t1", "dump", "reto t1", "dump")
+			for _, p := range full[k:] {
+				h = append(h, p, "dump", "reto t1", "dump")
+			}
+			h = append(h, "from t1 u0 40", "dump", "reto t1", "dump")
+			emit(h)
+		}
+		for _, tail := range [][]string{{}, {"from t1 u0 40"}, {"from t1 u0 40", "to t1 u0 40"}, {"from t1 u0 40", "to t1 u0 40", "commit t1"},
+			{"from t1 u0 40", "to t1 u0 40", "commit t1", "delto t1", "delfrom t1"}, {"from t1 u0 30", "cancel t1"}} {
+			h := []string{"reset " + dir, "fund u0 100", "from t1 u0 40", "dump", "cancel t1", "dump", "recancel t1", "dump"}
+			for _, p := range tail {
+				h = append(h, p, "dump", "recancel t1", "dump")
+			}
+			emit(h)
+		}
+	}
 	// (a''') the records re-encoded in the old binary form at every stage, then every step again
 	for _, dir := range []string{"f", "b", "g", "h"} {
 		for _, st := range stages[1:] {
@@ -413,7 +477,11 @@ func genC10(c *Cfg, emit func([]string)) {
 				trs = append(trs, tr{id, u, amt})
 			} else {
 				t := trs[c.Rng.Intn(len(trs))]
-				switch c.Rng.Intn(7) {
+				switch c.Rng.Intn(9) {
+				case 7:
+					h = append(h, "reto "+t.id)
+				case 8:
+					h = append(h, "recancel "+t.id)
 				case 0, 1:
 					u, a := t.user, t.amt
 					if c.Rng.Intn(5) == 0 {
@@ -439,6 +507,6 @@ func genC10(c *Cfg, emit func([]string)) {
 		}
 		emit(h)
 	}
-	c.Rule = fmt.Sprintf("(a) every sequence of %d steps over {initiate, create-to, commit, delete-to, delete-from, cancel} on one id (forward direction exhaustively, backward %s): every step attempted in and out of turn and repeated, the robot stopping after any prefix; (a''') the records of the id re-encoded in the old binary form at every stage followed by every step; (a') every robot step attempted by an ordinary client certificate at every stage of a run, in all 4 token shapes; (b) %d random histories over 3 ids x 2 users x both directions with duplicate ids, amounts {0,1,40,50,100,101}, off-protocol create-to content; two real chaincode instances on two simulated peers; after every step token/allowed balances of both users on both channels, both given counters and the records visible through channelTransferFrom/To. non-trivial = contains an initiation; distinct = sha256", depth, map[bool]string{true: "exhaustively", false: "sampled"}[c.Thorough()], nRand)
+	c.Rule = fmt.Sprintf("(a) every sequence of %d steps over {initiate, create-to, commit, delete-to, delete-from, cancel} on one id (forward direction exhaustively, backward %s): every step attempted in and out of turn and repeated, the robot stopping after any prefix; (a''') the records of the id re-encoded in the old binary form at every stage followed by every step; (a'''') the robot re-sending an executed create-to / cancel batch at every later stage, also after the records are gone and after the id was reused; (a') every robot step attempted by an ordinary client certificate at every stage of a run, in all 4 token shapes; (b) %d random histories over 3 ids x 2 users x both directions with duplicate ids, amounts {0,1,40,50,100,101}, off-protocol create-to content; two real chaincode instances on two simulated peers; after every step token/allowed balances of both users on both channels, both given counters and the records visible through channelTransferFrom/To. non-trivial = contains an initiation; distinct = sha256", depth, map[bool]string{true: "exhaustively", false: "sampled"}[c.Thorough()], nRand)
 	c.Extra = map[string]any{"walk_depth": depth, "random": nRand}
 }
